@@ -538,7 +538,17 @@ def run(ch, idx, tier):
         else:
             if len(prog_names) >= 2 and ch.flip("programs.package", 0.6):
                 quantity = "spending"
-            outputs = [{"package": prog_names[:2]}] + prog_names[2:3] if (quantity == "spending" and len(prog_names) >= 2) else prog_names[:1]
+            if quantity == "spending" and len(prog_names) >= 2:
+                # a package, then (in any mix) one of its own members, another program, a second package sharing a member
+                outputs = [{"package": prog_names[:2]}]
+                extra = ch.choose("programs.after_package", 4)
+                if extra in (1, 3):
+                    outputs.append(prog_names[ch.choose("programs.member", 2)])
+                if extra in (2, 3) and len(prog_names) >= 3:
+                    outputs.append({"package2": [prog_names[0], prog_names[2]]})
+                outputs += prog_names[2:3] if prog_names[2:3] and prog_names[2] not in outputs else []
+            else:
+                outputs = prog_names[:1]
         kw = {"nan_outside": ch.flip("programs.nan_outside", 0.5)}
         tb = ch.choose("programs.t_bins", 3)
         if tb == 1:
@@ -555,8 +565,9 @@ def run(ch, idx, tier):
             return
         outs = list(d.outputs.keys())
         try:
-            for o in outs[:3]:
-                spec = o if o != "package" else {"package": prog_names[:2]}
+            named_specs = {list(x.keys())[0]: x for x in (outputs or []) if isinstance(x, dict)}
+            for o in outs[:4]:
+                spec = named_specs.get(o, o)
                 di = at.PlotData.programs(pristine(), outputs=[spec], quantity=quantity, **kw)
                 a = [s_ for s_ in d.series if s_.output == o][0]
                 b = di.series[0]
